@@ -346,6 +346,97 @@ def install_fs(ex, fs):
     add(r'(?:std::collections::)?HashMap::<(?:apath::)?Apath, (?:std::io::)?ErrorKind>::get::<.*>', lambda ex, c, a: none())
 
 
+class LocalTransportV(Model):
+    """Transport::local(path) over the file-system model: its operations run the real transport::local::Protocol code."""
+    ty = 'Transport'
+
+    def __init__(self, path):
+        self.path = path
+
+    def clone_model(self):
+        return self
+
+
+class TDirEntry(Model):
+    ty = 'tokio::fs::DirEntry'
+
+    def __init__(self, name, node):
+        self.name, self.node = name, node
+
+
+class TReadDir(Model):
+    ty = 'tokio::fs::ReadDir'
+
+    def __init__(self, items):
+        self.items = list(items)
+
+
+def install_local_transport(ex, fs):
+    """Transport::local(..).list_dir(..): transport::local::Protocol::list_dir and collect_tokio_dir_entry run from MIR;
+    tokio::fs::read_dir / DirEntry are served by the file-system model (lstat semantics for file_type, as readdir gives)."""
+    I = ex.intercepts
+
+    def add(p, f):
+        I.insert(0, (re.compile('(?:' + p + r')$'), f))
+    fut = M.ReadyFuture
+    add(r'(?:transport::)?Transport::local', lambda ex, c, a: LocalTransportV(M.path_str(a[0])))
+
+    def t_list_dir(ex, c, a):
+        t = deref(a[0])
+        if not isinstance(t, LocalTransportV):
+            return NotImplemented
+        prog = ex.prog
+        name = [n for (n, tr) in prog.fn_index.get(('Protocol', 'Protocol', 'list_dir'), []) if 'local' in n]
+        if len(name) != 1:
+            raise Unsupported('local Protocol::list_dir not found')
+        proto = mk(ex, 'transport::local::Protocol', path=M.PathV(t.path), url=Opaque('Url'), tempdir=none())
+        boxed = ex.call_fn(name[0], [Ref([proto], 0), deref(a[1])])
+        co = boxed
+        while isinstance(co, Agg) and co.ty in ('Pin', 'Box'):
+            co = co.fields[0]
+
+        def run():
+            r = ex.poll_coroutine(co)
+            if r.variant != 0:
+                raise Unsupported('list_dir returned Pending')
+            return r.fields[0]
+        return fut(run)
+    add(r'(?:transport::)?Transport::list_dir', t_list_dir)
+
+    def read_dir(ex, c, a):
+        p = str_simplify(M.path_str(a[0]))
+        def run():
+            try:
+                t = fs.resolve(p.rstrip('/') or '/', True)
+            except IoErr as e:
+                return err(IoErrorV(e.kind))
+            n = fs.nodes.get(t)
+            if n is None:
+                return err(IoErrorV('NotFound'))
+            if n.kind != 'dir':
+                return err(IoErrorV('NotADirectory'))
+            pre = t.rstrip('/') + '/'
+            kids = sorted(q for q in fs.nodes if q.startswith(pre) and '/' not in q[len(pre):] and q != t)
+            return ok(TReadDir([TDirEntry(q[len(pre):], fs.nodes[q]) for q in kids]))
+        return fut(run)
+    add(r'(?:tokio::fs::)?read_dir::<.*>', read_dir)
+
+    def next_entry(ex, c, a):
+        rd = deref(a[0])
+        return fut(lambda: ok(some(rd.items.pop(0)) if rd.items else none()))
+    add(r'(?:tokio::fs::)?ReadDir::next_entry', next_entry)
+    add(r'(?:tokio::fs::)?DirEntry::file_name', lambda ex, c, a: deref(a[0]).name if isinstance(deref(a[0]), TDirEntry) else NotImplemented)
+    add(r'(?:std::ffi::)?OsString::into_string', lambda ex, c, a: ok(deref(a[0])))
+    add(r'(?:tokio::fs::)?DirEntry::file_type', lambda ex, c, a: fut(lambda: ok(MetaV(deref(a[0]).node.kind))) if isinstance(deref(a[0]), TDirEntry) else NotImplemented)
+    add(r'(?:tokio::fs::)?DirEntry::metadata', lambda ex, c, a: fut(lambda: ok(MetaV(deref(a[0]).node.kind))) if isinstance(deref(a[0]), TDirEntry) else NotImplemented)
+    add(r'(?:std::fs::)?FileType::is_dir', lambda ex, c, a: deref(a[0]).kind == 'dir')
+    add(r'(?:std::fs::)?FileType::is_file', lambda ex, c, a: deref(a[0]).kind == 'file')
+    add(r'(?:std::fs::)?FileType::is_symlink', lambda ex, c, a: deref(a[0]).kind == 'symlink')
+    add(r'(?:std::fs::)?Metadata::len', lambda ex, c, a: 3 if isinstance(deref(a[0]), MetaV) else NotImplemented)
+    add(r'(?:tokio::sync::)?Semaphore::acquire', lambda ex, c, a: fut(lambda: ok(Opaque('permit'))))
+    add(r'(?:tokio::sync::)?SemaphorePermit::drop|<(?:tokio::sync::)?SemaphorePermit<.*> as Drop>::drop', lambda ex, c, a: UNIT)
+
+
 class UserV(Model):
     ty = 'User'
 
@@ -409,7 +500,13 @@ def setup_fs(ex, dest_state='absent', chown_permitted=True):
         fs.mkdirs(DEST)
     if dest_state == 'populated':
         fs.put_file(DEST + '/existing', [('old', 0, 3)])
+    if dest_state == 'only-symlinks':
+        # nothing but symbolic links: one of them named like an archived file and pointing outside the destination
+        fs.mkdirs(DEST)
+        fs.nodes[DEST + '/existing'] = FsNode('symlink', target='../out/sentinel', owner=('pre', 'pre'), mtime=('pre', 'pre'))
+        fs.nodes[DEST + '/dangling'] = FsNode('symlink', target='nowhere', owner=('pre', 'pre'), mtime=('pre', 'pre'))
     install_fs(ex, fs)
+    install_local_transport(ex, fs)
     return fs
 
 
@@ -623,6 +720,9 @@ def make_contain(prog, stitched):
     return mk_
 
 
+DEST_STATES = ['absent', 'empty', 'populated', 'only-symlinks']
+
+
 def make_refuse(prog):
     """C16(c): without overwrite a non-empty destination is refused before any mutating call."""
     def mk_():
@@ -630,7 +730,7 @@ def make_refuse(prog):
 
         def h(ex):
             st, ar = A.new_archive(ex)
-            state = ['absent', 'empty', 'populated'][ex.concretize(ex.fresh_int('dest', 0, 2), 0, 2, 'dest state')]
+            state = DEST_STATES[ex.concretize(ex.fresh_int('dest', 0, len(DEST_STATES) - 1), 0, len(DEST_STATES) - 1, 'dest state')]
             overwrite = ex.branch(ex.fresh_bool('overwrite'), 'overwrite?')
             fs = setup_fs(ex, state)
             entries = [E('/', 'Dir', mode=0o755, sec=1), E('/existing', 'File', size=4, cls=7, mode=0o600, sec=2), E('/n', 'File', size=3, cls=8, mode=0o644, sec=3)]
@@ -640,7 +740,7 @@ def make_refuse(prog):
             before = {p: n.state() for p, n in fs.nodes.items()}
             r = run_restore(ex, ar, DEST, restore_options(ex, overwrite=overwrite))
             problems = []
-            if state == 'populated' and not overwrite:
+            if state in ('populated', 'only-symlinks') and not overwrite:
                 if r.variant == 0 or variant_name(ex, r.fields[0]) != 'DestinationNotEmpty':
                     problems.append('restore into a non-empty destination without overwrite was not refused')
                 for p, stt in before.items():
